@@ -113,9 +113,14 @@ def main():
     elif a[0] == "all":
         base = os.path.join(ROOT, "seeded")
         bad = 0
+        import re
+
+        only = re.compile(a[a.index("--only") + 1]) if "--only" in a else None  # e.g. --only '^C0' to split the work
         for sid in sorted(os.listdir(base)):
             d = os.path.join(base, sid)
             if sid == "neutral" or not os.path.exists(os.path.join(d, "patch.diff")):
+                continue
+            if only is not None and not only.search(sid):
                 continue
             r = evaluate(d, props, tier, quiet=True)
             caught = [p for p, c in r["checks"].items() if c["rc"] == 1]
